@@ -199,6 +199,99 @@ func progs() []prog {
 			verifrt.WaitIdle()
 			return fmt.Sprint(done)
 		}, []string{"false"}},
+		{"cond-signal-not-lost", func() string {
+			// the classic hand-over: whichever side runs first, the consumer gets the item
+			var mu sync.Mutex
+			cond := sync.NewCond(&mu)
+			ready, got := false, false
+			go func() {
+				mu.Lock()
+				for !ready {
+					cond.Wait()
+				}
+				got = true
+				mu.Unlock()
+			}()
+			mu.Lock()
+			ready = true
+			cond.Signal()
+			mu.Unlock()
+			verifrt.WaitIdle()
+			return fmt.Sprint(got)
+		}, []string{"true"}},
+		{"cond-signal-wakes-one-broadcast-all", func() string {
+			var mu sync.Mutex
+			cond := sync.NewCond(&mu)
+			woken := 0
+			for i := 0; i < 2; i++ {
+				go func() {
+					mu.Lock()
+					cond.Wait()
+					woken++
+					mu.Unlock()
+				}()
+			}
+			verifrt.WaitIdle() // both wait
+			cond.Signal()
+			verifrt.WaitIdle()
+			one := woken
+			cond.Broadcast()
+			verifrt.WaitIdle()
+			return fmt.Sprint(one, woken)
+		}, []string{"1 2"}},
+		{"cond-wait-without-signal-blocks", func() string {
+			var mu sync.Mutex
+			cond := sync.NewCond(&mu)
+			done := false
+			go func() {
+				mu.Lock()
+				cond.Wait()
+				done = true
+				mu.Unlock()
+			}()
+			verifrt.WaitIdle()
+			return fmt.Sprint(done)
+		}, []string{"false"}},
+		{"atomic-value-and-pointer", func() string {
+			var v atomic.Value
+			var p atomic.Pointer[int]
+			one, two := 1, 2
+			res := make(chan string, 2)
+			go func() { v.Store("a"); p.CompareAndSwap(nil, &one); res <- "" }()
+			go func() { v.Store("b"); p.CompareAndSwap(nil, &two); res <- "" }()
+			<-res
+			<-res
+			return fmt.Sprintf("%v %v", v.Load(), *p.Load())
+		}, []string{"a 1", "b 1", "a 2", "b 2"}},
+		{"once-value", func() string {
+			n := 0
+			f := sync.OnceValue(func() int { n++; return n })
+			res := make(chan int, 2)
+			go func() { res <- f() }()
+			go func() { res <- f() }()
+			return fmt.Sprint(<-res, <-res, n)
+		}, []string{"1 1 1"}},
+		{"context-cause-and-afterfunc", func() string {
+			ctx, cancel := context.WithCancelCause(context.Background())
+			ran := make(chan bool, 1)
+			stop := context.AfterFunc(ctx, func() { ran <- true })
+			child, ccancel := context.WithCancel(ctx)
+			defer ccancel()
+			cancel(fmt.Errorf("why"))
+			<-child.Done()
+			<-ran
+			detached := context.WithoutCancel(child)
+			return fmt.Sprint(context.Cause(child), stop(), detached.Err())
+		}, []string{"why false <nil>"}},
+		{"context-afterfunc-stopped", func() string {
+			ctx, cancel := context.WithCancel(context.Background())
+			ran := false
+			stop := context.AfterFunc(ctx, func() { ran = true })
+			stopped := stop()
+			cancel()
+			verifrt.WaitIdle()
+			return fmt.Sprint(stopped, ran)
+		}, []string{"true false"}},
 		{"spin-on-closed-channel-blocks", func() string {
 			closed, other := make(chan struct{}), make(chan int)
 			close(closed)
